@@ -40,6 +40,9 @@ checks = {
  "C15": ("exploration", "small-scope exhaustive enumeration of templates and macro call sites; value compared with an exact-substitution function, macro calls compared with hand-written expansions",
          "every list/array template of width 1..3 over 20 leaves (literals, unquotes of 6 bindings, splices of 4 lists incl. empty and nested, compound and traced unquotes) and with width-1..2 nested containers, written with the reader sugar; 12 macros x all argument tuples over 5 forms x 7 call sites x {direct, inside another macro's expansion}: value, effects and stacks vs the hand expansion; macexpand prints the exact substitution and leaves the caller's depths and globals unchanged",
          "trusts R4 (substitution inside the reference evaluator); splicing a non-list and nested syntax-quotes are skipped", "§3 C15"),
+ "C12": ("exploration", "exhaustive enumeration of a structured value space (boundary numbers, the whole Unicode range in thorough, adversarial strings) through print -> read/eval, and of literal spellings against strconv/math/big",
+         "ints, ~270 floats (thorough: every power of two and neighbours over the full exponent range), floats computed by the interpreter, bools, nil, every rune of ASCII/Latin-1 + representatives (thorough: all 1,112,064 scalars) as char and 1-char string, 2-char (3-char) adversarial strings, symbols, JSON-like hashes, each bare / in list / in array / nested: (read (str v)) and, for JSON-like values, (eval (read (str v))) equal v structurally; ~700 numeric literal spellings and all char/string literals and escapes denote their exact value",
+         "structural comparison with numbers by value; hashes judged in the eval direction; literal grammar is a structured grid, not all strings", "§3 C12"),
 }
 all_ids = ["C%02d" % i for i in range(1, 21)]
 pending = {i: "check not built yet in this tree (see DESIGN.md §7 build order); will be claimed when its machinery lands" for i in all_ids if i not in checks}
